@@ -258,12 +258,13 @@ def check_entries(ctx, w):
     t_res = expr.CP(expr.spec_cond('word0 & 0x70000000 != 0'), True)
     p0 = expr.CP(expr.spec_cond('per_index == 0'), True)
     p12 = expr.CP(expr.spec_cond('per_index == 1 or per_index == 2'), True)
+    not_p12 = expr.outcome('per_index == 1 or per_index == 2', False)
     spec += [
         (base + (t_table, t_generic), 'GenericEHABIEntry'),
         (base + (t_table, expr.neg(t_generic), t_res), 'CorruptEHABIEntry'),
         (base + (t_table, expr.neg(t_generic), expr.neg(t_res), p0), 'EHABIEntry'),
         (base + (t_table, expr.neg(t_generic), expr.neg(t_res), expr.neg(p0), p12), 'EHABIEntry'),
-        (base + (t_table, expr.neg(t_generic), expr.neg(t_res), expr.neg(p0), expr.neg(p12)), 'CorruptEHABIEntry'),
+        (base + (t_table, expr.neg(t_generic), expr.neg(t_res), expr.neg(p0)) + not_p12, 'CorruptEHABIEntry'),
         (base + (expr.neg(t_table), expr.CP(expr.spec_cond('word1 & 0x7f000000 != 0'), True)), 'CorruptEHABIEntry'),
         (base + (expr.neg(t_table), expr.CP(expr.spec_cond('word1 & 0x7f000000 != 0'), False)), 'EHABIEntry'),
     ]
